@@ -59,7 +59,7 @@ def _text_ops(w):
         b'PRINT "ab";', b'PRINT "xyz"', b'PRINT', b'PRINT STRING$(%d,"R");' % w,
         b'PRINT STRING$(%d,"W")' % (w + 3),
         b'LOCATE 1,1', b'LOCATE 24,%d' % w, b'LOCATE 25,1', b'LOCATE 12,%d' % w,
-        b'CLS', b'VIEW PRINT 2 TO 4', b'VIEW PRINT', b'KEY ON', b'KEY OFF',
+        b'CLS', b'VIEW PRINT 2 TO 4', b'VIEW PRINT 3 TO 3', b'VIEW PRINT', b'KEY ON', b'KEY OFF',
         # typed input that wraps at the right margin: the only way to scroll DOWN (rows below make room)
         b'LOCATE 12,%d:LINE INPUT A$' % (w - 1),
     ]
@@ -89,7 +89,8 @@ CONFIGS = {
 def _core_ops(cid):
     w = 40 if cid in ('cga-t40', 'cga-s1', 'tandy-s5') else 80
     ops = [b'PRINT "xyz"', b'PRINT STRING$(%d,"W")' % (w + 3), b'LOCATE 24,%d' % w, b'LOCATE 1,1', b'CLS',
-           b'VIEW PRINT 2 TO 4', b'VIEW PRINT', b'KEY ON', b'LOCATE 12,%d:LINE INPUT A$' % (w - 1)]
+           b'VIEW PRINT 2 TO 4', b'VIEW PRINT 3 TO 3', b'VIEW PRINT', b'KEY ON',
+           b'LOCATE 12,%d:LINE INPUT A$' % (w - 1)]
     allops = CONFIGS[cid]['ops']
     for o in (b'COLOR 7,1', b'COLOR 1,0', b'SCREEN ,,1,0', b'SCREEN ,,0,1', b'PCOPY 0,1',
               b'LINE (3,3)-(20,12),1,BF'):
